@@ -3,10 +3,12 @@
 
    parse() is wrapped by _nesting_as_value_error: when the recursion of _parse_simple_lines over nested blocks runs out
    of interpreter frames the RecursionError leaves parse() as ValueError - a clean rejection.  emit() recurses over the
-   same tree (_emit_block once per nested statement list, _register_lcd_animations once per list) and has NO such wrapper:
-   a RecursionError there is an internal error.  So the pipeline is clean on a script exactly when
+   same tree (_emit_block once per nested statement list, _register_lcd_animations once per list).  Whether emit() has such
+   a wrapper too is a parameter of the model ([guarded], read off the real emit() by the translator): with it, running out of
+   frames in emit() is a clean ValueError as well; without it the RecursionError escapes - an internal error - on every
+   script with
 
-       parse needs more frames than there are (clean ValueError)   or   emit needs no more frames than there are.
+       parse needs no more frames than there are (accepted)   and   emit needs more frames than there are.
 
    A stage is described by constants read from the real code by the translator (harness/gen/nestdepth.py measures the
    deepest frame of parse() / emit() with sys.setprofile on ladders of two depths and re-checks the fit on others):
@@ -46,9 +48,10 @@ Definition need_prog (s : stage) (p : list stmt) : Z := Z.max (st_head s) (needs
 (* [room] = interpreter frames left when the stage is entered (recursion limit - depth of the caller) *)
 Definition fits (s : stage) (room : Z) (p : list stmt) : bool := need_prog s p <=? room.
 
-(* the outcome of the pipeline on a script: 0 firmware, 1 clean ValueError from parse(), 2 RecursionError from emit() *)
-Definition pipeline (ps es : stage) (room : Z) (p : list stmt) : Z :=
-  if fits ps room p then (if fits es room p then 0 else 2) else 1.
+(* the outcome of the pipeline on a script: 0 firmware, 1 clean ValueError from parse(), 2 RecursionError from emit() (an
+   internal error), 3 clean ValueError from emit().  [guarded] = emit() reports its own exhausted nesting as ValueError *)
+Definition pipeline (guarded : bool) (ps es : stage) (room : Z) (p : list stmt) : Z :=
+  if fits ps room p then (if fits es room p then 0 else if guarded then 3 else 2) else 1.
 
 (* which leaves / slots occur *)
 Fixpoint leaves_of (t : stmt) : list nat :=
